@@ -38,6 +38,14 @@ ASSUMPTIONS = [
 STATIC_SAMPLES = [["add Ea1", "add Ea2 fail", "remove pos1"]]
 
 
+class UserEntry2(Entry):
+    """A second user subclass: a sibling of UserEntry (neither derives from the other)."""
+
+
+class UserString2(String):
+    """A sibling of UserString."""
+
+
 class UserString(String):
     """A user's subclass of String."""
 
@@ -62,12 +70,12 @@ def _k(key):
 
 def universe(tier):
     u = {
-        "Ea1": lambda: Entry("article", _k("a"), [Field("t", "1")]),
+        "Ea1": lambda: UserEntry2("article", _k("a"), [Field("t", "1")]),  # (sibling subclasses colliding: both are entries)
         "Ea2": lambda: UserEntry("book", _k("a"), [Field("u", "2")]),  # (a user subclass colliding with plain entries, both orders)
-        "Ea1t": lambda: Entry("article", _k("a"), [Field("t", "1")]),  # structurally equal twin of Ea1
+        "Ea1t": lambda: UserEntry2("article", _k("a"), [Field("t", "1")]),  # structurally equal twin of Ea1
         "Eb": lambda: UserEntry("article", _k("b"), []),
         "E0": lambda: Entry("misc", "", [Field("n", "0")]),  # the empty key is a key like any other
-        "Sa": lambda: String(_k("a"), "x"),
+        "Sa": lambda: UserString2(_k("a"), "x"),
         "Sa2": lambda: UserString(_k("a"), "y"),
     }
     u["P"] = lambda: Preamble("p")
